@@ -34,4 +34,5 @@ var (
 	ReformatDescription = verifbcl.ReformatDescription
 	TokenNames          = verifbcl.TokenNames
 	Operators           = verifbcl.Operators
+	MaxValueDepth       = verifbcl.MaxValueDepth
 )
